@@ -140,6 +140,9 @@ def r6_payload_layout(prog, rep: Report, cf: CacheFacts):
         if isinstance(e, ast.Subscript) and isinstance(e.slice, ast.Constant) and isinstance(e.slice.value, int):
             return e.slice.value
         if isinstance(e, ast.Name) and flow is not None:
+            ex_ = flow.expand(e)                   # lru_key = node.data[0]
+            if ex_ is not e and isinstance(ex_, ast.Subscript) and isinstance(ex_.slice, ast.Constant) and isinstance(ex_.slice.value, int):
+                return ex_.slice.value
             idx = set()
             for d in flow.defs_of(e):
                 if d.index is not None and len(d.index) == 1 and isinstance(d.index[0], int) and isinstance(d.value, ast.expr) \
